@@ -366,10 +366,20 @@ ATTRIB_FIELDS = [
 ]
 
 
+def _attrib_policy():
+    """helpers are inlined, the field lookups themselves (`find`) are what the rule reads"""
+    base = e3._helper_policy("tx3_lang")
+
+    def want(t, callee):
+        return callee["path"].rsplit("::", 1)[-1] != "find" and base(t, callee)
+    return want
+
+
 def attrib(F, res):
     n = 0
     for st, adt, mp in ATTRIB_FIND:
-        f = F.fn("<%s as %s>::into_lower" % (st, LOW))
+        # the block's lowering with the crate's helper functions inlined (the query may be built in `lower_input_query(..)`)
+        f = mir.inline_calls(F, F.fn("<%s as %s>::into_lower" % (st, LOW)), want=_attrib_policy(), depth=2)
         du = mir.DefUse(f)
         aggs = [(bi, s) for bi, si, s in mir.stmts(f) if s["rv"]["k"] == "agg" and s["rv"].get("adt") == adt]
         if not aggs:
@@ -389,7 +399,7 @@ def attrib(F, res):
                     res.add([finding("ATTRIB", key, w, "%s.%s is fed from find(%s) instead of find(\"%s\"): the template's `%s` is attributed to another field" % (
                         adt.split("::")[-1], tf, sorted(got), want, want))])
     for fn_path, adt, variant, mp in ATTRIB_FIELDS:
-        f = F.fn(fn_path)
+        f = mir.inline_calls(F, F.fn(fn_path), want=_attrib_policy(), depth=2)
         du = mir.DefUse(f)
         aggs = [(bi, s) for bi, si, s in mir.stmts(f) if s["rv"]["k"] == "agg" and s["rv"].get("adt") == adt and (variant is None or s["rv"]["variant"] == variant)]
         if not aggs:
